@@ -70,6 +70,18 @@ CHECKS = {
         "repository's monitor). Operations that raise are not judged. Theorems are sampled by seed (quick: 3 theories x 8; thorough: 10 x 60).",
         "TLA+ spec of proof-line renumbering + TLC; trace validation of real editing sessions, state by state",
         "6/C13"),
+ "C14": ("model_checking",
+        "TLC model-checks the search/apply contract on an abstract proof state (spec/C14_Suggest.tla: all states and suggestions over 4 "
+        "propositions; invariants GoalsAdvertised, SolvesLeavesNone, ClosedOnesAreProved, FactAppears). At every prefix state of seeded "
+        "library proofs the real search_method is run on the recorded goal/facts and on seeded other selections, and every returned "
+        "suggestion (<= 10 per query) is applied on a copy; TLC judges each application (spec/C14_SuggestTrace.tla): never fails "
+        "outright, new gaps are among the advertised goals, a suggestion advertised as solving leaves none, advertised goals not left "
+        "open are proved lines, advertised facts appear as proved lines, the original state is untouched.",
+        "Trusted: TLC/SANY, projection of proof states (terms interned through the structural codec). Suggestions with declared "
+        "parameters left open are applied only when the recorded step is the same suggestion (its values are used); others are not judged. "
+        "z3 is switched off as in the repository's monitor.",
+        "TLA+ contract spec + TLC; trace validation of real search/apply pairs at reachable proof states",
+        "6/C14"),
 }
 
 NOT_YET = {}
